@@ -3,17 +3,20 @@ LEVEL = "proof"
 CONTRACT_MODULES = ["rdp"]
 DEDUCTIVE = [
     ("rdp", "kneeliverse.rdp.mapping"),
+    ("rdp", "kneeliverse.rdp.mapping#unsorted"),
     ("rdp", "kneeliverse.rdp.compute_removed_points"),
 ]
 EXPLANATION = ("mapping (sorted=True) and compute_removed_points are proved against the property's statement for all n, all "
                "strictly increasing reductions and all ascending position lists (pure integer VCs, no numeric assumption). "
-               "The bounded layer enumerates index sets exhaustively up to the stated n, including the sorted=False row "
-               "permutations and the simplifiers' own tables.")
+               "With sorted=False the same postcondition is proved for *every* row permutation of the table (ghost "
+               "witnesses of the permutation; after the argsort the composed index map is strictly increasing on [0,m) and hence the identity - "
+               "two inductions carried out as proof steps attached to the assignment). 'compute_removed_points reproduces each simplifier's "
+               "table' follows from the (R) postconditions of C01. The bounded layer enumerates index sets exhaustively up to the stated n.")
 ASSUMPTIONS = []
 LEVEL_TEXT = ("Proof: verification conditions generated from the real source of rdp.mapping and rdp.compute_removed_points "
               "(loop invariants + variants in /verif/contracts/rdp.py) are discharged by z3 for all n, reductions and position lists; "
-              "mapping(I, reduced, removed) == reduced[I] and the removed table are postconditions. The sorted=False clause and "
-              "'reproduces each simplifier's table' are additionally covered by an exhaustive bounded layer (n<=9/11).")
+              "mapping(I, reduced, removed) == reduced[I] and the removed table are postconditions. including sorted=False for every row permutation; "
+              "an exhaustive bounded layer (n<=9/11) cross-checks both and the simplifiers' own tables.")
 LEVEL_NOTE = ("Trusted: kvc's encoding of Python semantics (A-SEM), np.array as identity on values, mathematical integers (A-INT). "
               "sorted=False: proved modulo the argsort contract (permutation with inverse, keys non-decreasing).")
 TECHNIQUE = "contract-based deductive verification (AST->VC, z3) of the real functions; bounded exhaustive run-time layer as labelled stand-in"
